@@ -184,7 +184,7 @@ namespace OP2Utility::Archive
 		// Record the path to the root
 		bitCount = 0;
 		unsigned int bitString = 0;
-		NodeIndex curNodeIndex = code;
+		NodeIndex curNodeIndex = parentIndex[code + nodeCount];  // Index of the node containing this code
 		while (curNodeIndex != rootNodeIndex)
 		{
 			unsigned int bBit = curNodeIndex & 1;  // Get the direction from parent to current node
